@@ -90,4 +90,23 @@ def AdCursor.wordPos (c : AdCursor) (nbytes : Nat) : Nat := (c.pos + nbytes - 1)
 /-- `WordSeek::set_word_pos`: the byte position becomes `k * nbytes` -/
 def AdCursor.setWordPos (c : AdCursor) (nbytes k : Nat) : AdCursor := { c with pos := k * nbytes }
 
+/-! ### the same arithmetic over a storage-less source (positions beyond any real buffer) -/
+
+/-- byte `i` of the virtual source of the harness (`VirtSrc`): `(i * 0x9E3779B97F4A7C15 mod 2^64) >> 56` -/
+def virtByte (i : Nat) : Nat := ((i % 2 ^ 64) * 0x9E3779B97F4A7C15 % 2 ^ 64) / 2 ^ 56
+
+/-- a seekable byte source of unbounded length whose content is `virtByte`; only the position is state -/
+structure AdVirt where
+  pos : Nat := 0
+
+/-- `read_word`: the next `nbytes` bytes; never fails -/
+def AdVirt.readWord (c : AdVirt) (nbytes : Nat) : List Nat × AdVirt :=
+  ((List.range nbytes).map fun k => virtByte (c.pos + k), { pos := (c.pos + nbytes) % 2 ^ 64 })
+
+/-- `word_pos`: byte position divided by the word size, rounded up (`u64::div_ceil`) -/
+def AdVirt.wordPos (c : AdVirt) (nbytes : Nat) : Nat := (c.pos + nbytes - 1) / nbytes
+
+/-- `set_word_pos(k)`: `Start(k * BYTES)`; the product is a `u64` (wraps in optimised builds) -/
+def AdVirt.setWordPos (_c : AdVirt) (nbytes k : Nat) : AdVirt := { pos := (k * nbytes) % 2 ^ 64 }
+
 end Dsi
